@@ -62,13 +62,24 @@ static void IncChunk(ChunkList* NChunk) {
 Boolean AddChunk(ChunkList* NChunk, LargeWord NewStart, LargeWord NewLen, Boolean Warn) {
     Word     z, f1 = 0, f2 = 0;
     Boolean  Found;
-    LongWord PartSum;
     Boolean  Result;
 
     Result = False;
 
     if (NewLen == 0) {
         return Result;
+    }
+
+    /* the new piece overlaps if it shares an address with any existing chunk;
+       merely touching a chunk is no overlap */
+
+    if (Warn) {
+        for (z = 0; z < NChunk->RealLen; z++) {
+            if ((NewStart < NChunk->Chunks[z].Start + NChunk->Chunks[z].Length)
+                && (NChunk->Chunks[z].Start < NewStart + NewLen)) {
+                Result = True;
+            }
+        }
     }
 
     /* herausfinden, ob sich das neue Teil irgendwo mitanhaengen laesst */
@@ -88,15 +99,9 @@ Boolean AddChunk(ChunkList* NChunk, LargeWord NewStart, LargeWord NewLen, Boolea
     if (Found) {
         /* gefundene Chunk erweitern */
 
-        PartSum = NChunk->Chunks[f1].Length + NewLen;
         SetChunk(
                 NChunk->Chunks + f1, NewStart, NewLen, NChunk->Chunks[f1].Start,
                 NChunk->Chunks[f1].Length);
-        if (Warn) {
-            if (PartSum != NChunk->Chunks[f1].Length) {
-                Result = True;
-            }
-        }
 
         /* schauen, ob sukzessiv neue Chunks angebunden werden koennen */
 
